@@ -88,5 +88,4 @@ func cmdManifest() int {
 	return 0
 }
 
-var notApplicable = map[string]string{
-}
+var notApplicable = map[string]string{}
